@@ -34,6 +34,16 @@ import (
 // target is a violation too). The best connection reports nothing after the target; 0..2 heads of the
 // other connections follow right behind it.
 //
+// Three further draws (round 7): who reports the heads below the target while Run is not draining: the
+// other connections (as above), the best connection itself (it starts 100 heads lower and catches up:
+// the reporter that has to wait for room in the channel is then the best connection's own), or both in
+// turns; whether the parked reader of route 0 takes the connection's head before it is parked or after
+// (a reader that lost the CPU before it reached the connection's lock: it then reads a connection whose
+// reporter is waiting for room in the channel); 0..2 further callers that arrive while Run is not draining
+// (route 0: they queue for the pool lock behind the parked caller and get it in turns with Run once it
+// is released). The obligations are the same for everybody: the best connection reports the target
+// seconds before every deadline, so every caller succeeds and every SetMasterHead returns.
+//
 // Real time: 4 s timeouts, everything is out a few ms after the lock was released / Run was started (at
 // most ~100 ms after the start). An error counts only if all early waiters had been seen registered
 // before the first head, SetMasterHead(target) on the best connection had returned >= 2 s before the
@@ -44,6 +54,8 @@ import (
 type gateConn struct {
 	pool.VerifConn
 
+	late bool // the parked read takes the connection's head after the park, not before
+
 	mu      sync.Mutex
 	armed   bool
 	fired   bool
@@ -53,19 +65,26 @@ type gateConn struct {
 }
 
 func (g *gateConn) MasterHead() ton.BlockIDExt {
-	head := g.VerifConn.MasterHead()
 	g.mu.Lock()
 	fire := g.armed && !g.fired
 	if fire {
 		g.fired = true
 	}
 	g.mu.Unlock()
-	if fire {
-		close(g.entered)
-		select {
-		case <-g.release:
-		case <-time.After(10 * time.Second):
-		}
+	if !fire {
+		return g.VerifConn.MasterHead()
+	}
+	var head ton.BlockIDExt
+	if !g.late {
+		head = g.VerifConn.MasterHead()
+	}
+	close(g.entered)
+	select {
+	case <-g.release:
+	case <-time.After(10 * time.Second):
+	}
+	if g.late {
+		head = g.VerifConn.MasterHead()
 	}
 	return head
 }
@@ -84,7 +103,8 @@ type headEv struct {
 	oblige bool
 }
 
-var undrainedHeads = &core.Check{Name: "c13/undrained-heads", Quick: 40, Thorough: 4000, Fn: func(c *core.Ctx) error {
+var undrainedHeads = &core.Check{Name: "c13/undrained-heads", Quick: 40, Thorough: 4000, Hang: caseHang, Fn: func(c *core.Ctx) error {
+	caseStart()
 	gmp := c.OneOf("gomaxprocs", 1, 2, 16)
 	nconn := 2 + c.Choose("connections-2", 3)
 	bestPos := c.Choose("best", 4) % nconn
@@ -105,6 +125,9 @@ var undrainedHeads = &core.Check{Name: "c13/undrained-heads", Quick: 40, Thoroug
 	tail := c.Choose("tail", 3) // heads of the other connections reported right behind the target
 	nW := 1 + c.Choose("waiters-1", 3)
 	dwell := time.Duration(c.OneOf("dwell.ms", 20, 5, 60)) * ms
+	floodBy := c.Weighted("flood by", 2, 2, 1) // 0 the other connections, 1 the best connection itself, 2 in turns
+	readLate := c.Bool("read after the park")  // route 0: the parked reader takes the head after the park
+	fresh := c.Choose("fresh callers", 3)      // callers that arrive while Run is not draining
 
 	const base = uint32(baseSeqno)
 	target := base + 3
@@ -117,17 +140,27 @@ var undrainedHeads = &core.Check{Name: "c13/undrained-heads", Quick: 40, Thoroug
 			if !ahead {
 				heads[i] = base - 500
 			}
+		} else if floodBy != 0 {
+			heads[i] = base - 100 // it catches up while Run is not draining; at most 40 heads: it stays below the target
 		}
 	}
 	initial := append([]uint32(nil), heads...)
 	var evs []headEv
+	fromBest := 0
 	for i := 0; i < flood; i++ {
-		if bestSteps == 1 && i == flood/2 {
+		if bestSteps == 1 && floodBy == 0 && i == flood/2 {
 			evs = append(evs, headEv{conn: bestPos, seq: target - 1})
 		}
 		o := others[i%len(others)]
+		if floodBy == 1 || (floodBy == 2 && i%2 == 1) {
+			o = bestPos
+			fromBest++
+		}
 		heads[o]++
 		evs = append(evs, headEv{conn: o, seq: heads[o]})
+	}
+	if bestSteps == 1 && floodBy != 0 {
+		evs = append(evs, headEv{conn: bestPos, seq: target - 1})
 	}
 	last := target
 	if bestSteps == 2 {
@@ -148,8 +181,10 @@ var undrainedHeads = &core.Check{Name: "c13/undrained-heads", Quick: 40, Thoroug
 	c.Note("gomaxprocs", gmp)
 	c.Note("pool", fmt.Sprintf("%d connections, best conn%d, initial heads %v; %d x WaitMasterchainSeqno(%d, %v) registered before", nconn, bestPos, initial, nW, target, pointTimeout))
 	c.Note("while Run is not draining", fmt.Sprintf("%s, for %v (or until all heads are handed over)", routeName, dwell))
-	c.Note("heads", fmt.Sprintf("%d heads of the other connections (ahead of the target: %v), then the best connection reports %d, then %d more heads of the other connections; one reporter per connection: %v; events %v", flood, ahead, last, tail, perConn, evs))
+	c.Note("heads", fmt.Sprintf("%d heads below the target, %d of them reported by the best connection itself, the rest by the other connections (which are ahead of the target: %v), then the best connection reports %d, then %d more heads of the other connections; one reporter per connection: %v; events %v", flood, fromBest, ahead, last, tail, perConn, evs))
+	c.Note("callers", fmt.Sprintf("%d further callers of WaitMasterchainSeqno(%d, %v) arrive while Run is not draining; the parked reader (route 0) takes the connection's head after the park: %v", fresh, target, pointTimeout, readLate))
 	c.Class("route: " + routeName)
+	c.Class([]string{"heads below the target: reported by the other connections", "heads below the target: reported by the best connection itself", "heads below the target: reported in turns"}[floodBy])
 	c.Class(fmt.Sprintf("gomaxprocs %d", gmp))
 
 	old := runtime.GOMAXPROCS(gmp)
@@ -161,18 +196,37 @@ var undrainedHeads = &core.Check{Name: "c13/undrained-heads", Quick: 40, Thoroug
 	for i := range conns {
 		conns[i] = p.VerifNewConnection(i)
 	}
-	best := &gateConn{VerifConn: conns[bestPos], entered: make(chan struct{}), release: make(chan struct{})}
+	best := &gateConn{VerifConn: conns[bestPos], late: readLate, entered: make(chan struct{}), release: make(chan struct{})}
 	defer best.open()
-	p.VerifSetBest(best)
+	blocked := func(err error) error {
+		c.Class("pool blocked")
+		return err
+	}
+	if err := setBest(p, best, fmt.Sprintf("conn%d (fresh pool)", bestPos)); err != nil {
+		return blocked(err)
+	}
 	ctx, stopRun := context.WithCancel(context.Background())
 	defer stopRun()
+	var runOnce sync.Once
+	startRun := func() { runOnce.Do(func() { go p.Run(ctx) }) }
 	if route != 1 {
-		go p.Run(ctx)
+		startRun()
 	}
 	t0 := time.Now()
 	since := func() time.Duration { return time.Since(t0) }
-	for i, cn := range conns { // at most 4 updates: they fit into the channel also without Run
-		cn.SetMasterHead(pool.VerifHead(initial[i]))
+	for i, cn := range conns { // at most 4 updates: they fit into the channel also without Run (else Run is started: no verdict)
+		var rescue func()
+		if route == 1 {
+			rescue = startRun
+		}
+		rescued, err := poolCallRescue(fmt.Sprintf("the first SetMasterHead(%d) on conn%d of a fresh pool", initial[i], i), func() { cn.SetMasterHead(pool.VerifHead(initial[i])) }, rescue)
+		if err != nil {
+			return blocked(err)
+		}
+		if rescued {
+			c.Class("inconclusive: Run had to be started early (the head channel did not take the heads)")
+			return nil
+		}
 	}
 	probe := startLagProbe()
 	probeDone := false
@@ -193,7 +247,7 @@ var undrainedHeads = &core.Check{Name: "c13/undrained-heads", Quick: 40, Thoroug
 		err    error
 		t0, t1 time.Duration
 	}
-	out := make(chan result, nW+1)
+	out := make(chan result, nW+1+fresh)
 	var wg sync.WaitGroup
 	call := func(who string) {
 		wg.Add(1)
@@ -208,17 +262,18 @@ var undrainedHeads = &core.Check{Name: "c13/undrained-heads", Quick: 40, Thoroug
 	giveUp := func(why string) error {
 		best.open()
 		cancelWaiters()
-		wg.Wait()
+		if h := awaitGroup(&wg, callLimit); h != nil {
+			return blocked(blockedError("callers of WaitMasterchainSeqno whose context was cancelled", h))
+		}
 		c.Class("inconclusive: " + why)
 		return nil
 	}
 	for i := 0; i < nW; i++ {
 		call("a waiter registered before the heads")
 	}
-	for i := 0; p.VerifWaiters() < nW && i < 20000; i++ {
-		time.Sleep(100 * time.Microsecond)
-	}
-	if p.VerifWaiters() != nW {
+	if n, err := waitersSeen(p, nW, nil); err != nil {
+		return blocked(err)
+	} else if n != nW {
 		return giveUp("waiters not registered in 2 s (slow machine)")
 	}
 	time.Sleep(2 * ms) // let them park, let Run hand out the initial heads
@@ -276,6 +331,10 @@ var undrainedHeads = &core.Check{Name: "c13/undrained-heads", Quick: 40, Thoroug
 	}
 	repDone := make(chan struct{})
 	go func() { rep.Wait(); close(repDone) }()
+	for i := 0; i < fresh; i++ {
+		time.Sleep(ms)
+		call("a caller that arrived while Run was not draining")
+	}
 	handedOver := false
 	select {
 	case <-repDone:
@@ -286,25 +345,17 @@ var undrainedHeads = &core.Check{Name: "c13/undrained-heads", Quick: 40, Thoroug
 	case 0:
 		best.open()
 	case 1:
-		go p.Run(ctx)
+		startRun()
 	}
 	freeT := since()
 
-	select {
-	case <-repDone:
-	case <-time.After(pointTimeout + 20*time.Second):
-		_, d := verifiablyStuck(func() int64 { return 0 })
+	if h := await(repDone, pointTimeout+20*time.Second, nil); h != nil {
 		c.Class("pool blocked")
-		return fmt.Errorf("the connections' SetMasterHead calls (started at %v) have not all returned %v after Run was free to take updates again (%v)\ngoroutines inside the pool package:\n%s", startT, pointTimeout+20*time.Second, freeT, d.text)
+		return fmt.Errorf("the pool is blocked: the connections' SetMasterHead calls (started at %v) are not all back %s, counted from the moment Run was free to take updates again (%v; %s)\ngoroutines inside the pool package:\n%s", startT, h, freeT, routeName, h.dump.text)
 	}
-	done := make(chan struct{})
-	go func() { wg.Wait(); close(done) }()
-	select {
-	case <-done:
-	case <-time.After(pointTimeout + 20*time.Second):
-		_, d := verifiablyStuck(func() int64 { return 0 })
+	if h := awaitGroup(&wg, pointTimeout+20*time.Second); h != nil {
 		c.Class("pool blocked")
-		return fmt.Errorf("%d x WaitMasterchainSeqno(%d, %v) did not all return within %v\ngoroutines inside the pool package:\n%s", nW, target, pointTimeout, pointTimeout+20*time.Second, d.text)
+		return fmt.Errorf("the pool is blocked: %d x WaitMasterchainSeqno(%d, %v) not all back %s\ngoroutines inside the pool package:\n%s", nW+fresh+map[bool]int{true: 1}[route == 0], target, pointTimeout, h, h.dump.text)
 	}
 	close(out)
 	if route == 2 {
@@ -320,7 +371,7 @@ var undrainedHeads = &core.Check{Name: "c13/undrained-heads", Quick: 40, Thoroug
 	for r := range out {
 		if r.err == nil {
 			if !pubCalled || r.t1 < pubT0 {
-				problems = append(problems, fmt.Sprintf("%s: WaitMasterchainSeqno(%d) started at %v returned success at %v, before the best connection conn%d was handed a head >= %d (at %v; its head was %d then; other connections ahead of the target: %v)", r.who, target, r.t0, r.t1, bestPos, target, pubT0, base, ahead))
+				problems = append(problems, fmt.Sprintf("%s: WaitMasterchainSeqno(%d) started at %v returned success at %v, before the best connection conn%d was handed a head >= %d (at %v; its head was below %d then; other connections ahead of the target: %v)", r.who, target, r.t0, r.t1, bestPos, target, pubT0, target, ahead))
 			}
 			continue
 		}
@@ -331,7 +382,7 @@ var undrainedHeads = &core.Check{Name: "c13/undrained-heads", Quick: 40, Thoroug
 		case !pubDone || pubT1 > deadline-pointMargin:
 			inconclusive = "head published late"
 		default:
-			problems = append(problems, fmt.Sprintf("%s: WaitMasterchainSeqno(%d, %v) started at %v returned %s at %v although the best connection conn%d reported head %d at %v (SetMasterHead returned at %v), %v before the deadline; Run was not draining the pool's channel from %v to %v (%s) while %d heads of the other connections were reported before that head (all reporters back before Run was free: %v); the best connection reports nothing afterwards; scheduler lag %v",
+			problems = append(problems, fmt.Sprintf("%s: WaitMasterchainSeqno(%d, %v) started at %v returned %s at %v although the best connection conn%d reported head %d at %v (SetMasterHead returned at %v), %v before the deadline; Run was not draining the pool's channel from %v to %v (%s) while %d heads below the target were reported before that head (all reporters back before Run was free: %v); the best connection reports nothing afterwards; scheduler lag %v",
 				r.who, target, pointTimeout, r.t0, errText(r.err), r.t1, bestPos, last, pubT0, pubT1, deadline-pubT1, startT, freeT, routeName, flood, handedOver, lag))
 		}
 	}
@@ -353,7 +404,10 @@ var undrainedHeads = &core.Check{Name: "c13/undrained-heads", Quick: 40, Thoroug
 	}
 	if route != 2 && flood+nconn >= 11 {
 		c.Class("more heads than the channel holds while Run was not draining")
-		c.NonTrivial(gmp, nconn, bestPos, route, flood, ahead, bestSteps, perConn, tail, nW, int(dwell/ms))
+		if fromBest >= 12 {
+			c.Class("the best connection's own reporter had to wait for room in the channel")
+		}
+		c.NonTrivial(gmp, nconn, bestPos, route, flood, ahead, bestSteps, perConn, tail, nW, int(dwell/ms), floodBy, readLate, fresh)
 	}
 	return nil
 }}
